@@ -9,7 +9,8 @@ from ..build import Builder
 
 PID = "C07"
 LEVEL = "exploration"
-RULE = ("Hypothesis-generated design DAGs of 2..5 modules (shared sub-modules, bundle-valued ports, port references, arrays, pairs, "
+RULE = ("[at the end of every history each elaborated module is also offered additions that re-use its existing names - all must be refused, and the design must export as before] "
+        "Hypothesis-generated design DAGs of 2..5 modules (shared sub-modules, bundle-valued ports, port references, arrays, pairs, "
         "generator-built modules). Per design, enumerated histories: every order of single-module elaborate calls (all n! for n<=4, "
         "60 sampled for n=5), each with lazy construction (a module is constructed when first needed, i.e. parents after already "
         "elaborated children) and with everything constructed first; every ordered pair of modules as one list call to elaborate and "
@@ -91,7 +92,29 @@ def run_history(spec, hist):
                 nf.append(k)
         except Exception:
             pass
+    # refused additions that re-use an existing name must leave the module as it was
+    for k in sorted(elaborated):
+        m = b.module(k)
+        for nm in list(m.namespace):
+            for how in (0, 1, 2):
+                try:
+                    if how == 0:
+                        m.add(h.Signal(name=nm))
+                    elif how == 1:
+                        setattr(m, nm, h.Input(width=3))
+                    else:
+                        m.add(h.Instance(of=h.R(r=1)), name=nm)
+                    if k not in nf:
+                        nf.append(k)
+                except Exception:
+                    pass
     out["not_frozen"] = nf
+    try:
+        p3 = h.to_proto(t).SerializeToString(deterministic=True)
+        out["after_refused_differs"] = (p3 != p1)
+    except Exception as e:
+        out["after_refused_differs"] = True
+        out["after_refused_error"] = "%s: %s" % (type(e).__name__, str(e)[-300:])
     return out
 
 
@@ -160,6 +183,9 @@ def eval_design(spec, rnd_orders, extra_hists):
                 fails.append(("export_not_idempotent", "exporting twice at the end of history %s gave two different packages" % json.dumps(hist)))
             if r["not_frozen"]:
                 fails.append(("elaborated_module_accepts_additions", "modules %s accepted add()/setattr after elaboration (history %s)" % (r["not_frozen"], json.dumps(hist))))
+            if r.get("after_refused_differs"):
+                fails.append(("refused_addition_changes_package", "after refused additions re-using existing names the design exports differently (%s; history %s)" % (
+                    r.get("after_refused_error", "different bytes"), json.dumps(hist))))
         results.append((hist, fails))
     if base["second_differs"]:
         results.append(([["construct_all"]], [("export_not_idempotent", "baseline export twice differs")]))
@@ -253,6 +279,8 @@ def replay(case):
             out.append(("export_not_idempotent", "second export differs"))
         if r["not_frozen"]:
             out.append(("elaborated_module_accepts_additions", str(r["not_frozen"])))
+        if r.get("after_refused_differs"):
+            out.append(("refused_addition_changes_package", r.get("after_refused_error", "different bytes")))
     return out
 
 
